@@ -12,7 +12,7 @@ RULE = ('every history of handler results of length 0..4 (5 thorough) over {(ds_
         'stub provider, its P-DATA PDUs go through encode/decode and the real DIMSEDecoder into the real SCU generator. '
         'Plus the SCU alone against every scripted response history of 0..4 pending responses followed by each final '
         'class. distinct/non-trivial = distinct (entry point, history, ts, max PDU)')
-ASSUMPTIONS = ['both sides run in one thread over stub providers (interleaving is the subject of C15/C20, not of C16)',
+ASSUMPTIONS = ['part 1: both sides run in one thread over stub providers; part 2 (vp/svc_stack.py): the same services with real provider threads, schedules enumerated',
                'data sets are compared by their pydicom re-encoding in the negotiated transfer syntax']
 
 TS = ['1.2.840.10008.1.2', '1.2.840.10008.1.2.1', '1.2.840.10008.1.2.2']
@@ -62,6 +62,9 @@ def _server_ae(ts, script, seen):
 
 def run_case(case):
     common.import_repo()
+    if 'stack' in case:
+        from .. import svc_stack
+        return svc_stack.run_case(case, 'c16:')
     import pynetdicom2
     from pynetdicom2 import applicationentity, sopclass, asceprovider, statuses
     ts = TS[case['ts']]
@@ -154,3 +157,8 @@ def run_case(case):
     return {'viol': viol, 'case': case if viol else None, 'key': (entry, tuple(case['hist']), case['ts'], case['maxlen']),
             'count': {'response_fragments': nfrag},
             'sample': dict(case, fragments=nfrag) if case['hist'] == [0, 2, 1] and case['maxlen'] == 128 else None}
+
+
+def finalize(rep, tier, seed):
+    from .. import svc_stack
+    svc_stack.extend(rep, ID, tier, seed, 'vp.checks.c16')
